@@ -97,6 +97,17 @@ def configs():
         schemas["Uni"] = {kw: [R("Alpha"), R("Beta"), R("Gamma")], "discriminator": {"propertyName": "kind", "mapping": {t: f"#/components/schemas/{c}" for t, c in mapping.items()}}}
         out.append({"name": f"{kw}/cyclic-members", "spec": wrap(schemas),
                     "unions": [{"name": "Uni", "kind": "union", "prop": "kind", "mapping": mapping, "members": ["Alpha", "Beta", "Gamma"], "base": None}]})
+    # ---- an INLINE discriminated union next to a NAMED union over the same members without discriminator
+    for kw in ("oneOf", "anyOf"):
+        schemas = {}
+        for c in ("Alpha", "Beta"):
+            f, ty, _ = CHILD_FIELDS[c]
+            schemas[c] = {"type": "object", "required": ["kind"], "properties": {"kind": {"type": "string"}, f: {"type": ty}}}
+        schemas["Animal"] = {kw: [R("Alpha"), R("Beta")]}
+        schemas["Owner"] = {"type": "object", "properties": {"pet": {kw: [R("Alpha"), R("Beta")], "discriminator": {"propertyName": "kind", "mapping": {"a": "#/components/schemas/Alpha", "b": "#/components/schemas/Beta"}}},
+                                                             "other": R("Animal")}}
+        out.append({"name": f"{kw}/inline-next-to-plain-named", "spec": wrap(schemas),
+                    "unions": [{"name": None, "via": ("Owner", "pet"), "kind": "union", "prop": "kind", "mapping": {"a": "Alpha", "b": "Beta"}, "members": ["Alpha", "Beta"], "base": None}]})
     # ---- F: nested unions: a member of the outer union is itself a discriminated union
     schemas = {}
     for c in ("Alpha", "Beta", "Gamma"):
@@ -178,6 +189,15 @@ def main(tier, seed, replay=None):
         rc, txt = vlib.oas(["generate", "types", "-i", sp, "-o", outp, "-q", "--no-helpers"] + (flags if flags is not None else ["--all-schemas"]), timeout=120)
         return rc, txt[-300:], outp
     results = vlib.pmap(one, range(len(cfgs)))
+    for i, c in enumerate(cfgs):
+        for u in c["unions"]:
+            if u.get("via") and results[i][0] == 0:
+                # the union is inline: its emitted name is whatever the member is typed with
+                text = open(results[i][2]).read()
+                sm = re.search(r"(?s)pub struct " + u["via"][0] + r" \{(.*?)\n\}", text)
+                fm = re.search(r"(?m)^\s+pub " + u["via"][1] + r": (.*),$", sm.group(1)) if sm else None
+                ids = re.findall(r"[A-Z]\w*", re.sub(r"\b(Option|Box|Vec)\b", "", fm.group(1))) if fm else []
+                u["name"] = ids[0] if ids else "<not found>"
     # implicit mappings are synthesised by the MODEL from the const values found in the spec
     sq, sidx = [], []
     for i, c in enumerate(cfgs):
